@@ -161,6 +161,32 @@ def coord_sequences():
     return out
 
 
+OBSC_KINDS = (("dir", "direction"), ("ang", "angle"), ("zan", "z-angle"), ("dist", "distance"), ("sdist", "s-distance"))
+OBSC_UNITS = ("gon", "deg")
+
+
+def obsc_sequences(single_direction=False):
+    """every sequence of 2 and 3 observations of one <obs> cluster over {direction, angle, z-angle} (angular) and
+    {distance, s-distance} (linear), i.e. every order of angular / linear rows of its covariance matrix.  A set with
+    exactly one direction is left out: the direction is removed by gama-local (orientation unknown without a second
+    direction; that is member rm.single-direction), so it is not a row of the adjustment -> [tuple of (short, kind)]"""
+    import itertools
+    out = []
+    for n in (2, 3):
+        for seq in itertools.product(OBSC_KINDS, repeat=n):
+            if not single_direction and sum(1 for k in seq if k[1] == "direction") == 1: continue
+            out.append(seq)
+    return out
+
+
+def obsc_cluster(seq):
+    """station C (fixed), the i-th observation goes to the i-th of the adjusted points P Q R; angles have the left arm A"""
+    obs = []
+    for (_, kind), to in zip(seq, "PQR"):
+        obs.append(Obs("angle", "C", bs="A", fs=to) if kind == "angle" else Obs(kind, "C", to))
+    return Cluster("obs", frm="C", zero=163.0, obs=obs)
+
+
 def baselev():
     pts = [P("A", zs="fix"), P("B", zs="fix"), P("P", zs="adj"), P("Q", zs="adj"), P("R", zs="adj")]
     cl = [Cluster("height-differences", obs=[
@@ -400,6 +426,22 @@ def family(noise=1.0, geom=0):
             n.clusters.append(Cluster("coordinates", obs=[Obs("coord", to=i, comps=c) for c, i in zip(seq, ids)],
                                       cov=cov_family(dim, b, 100.0)))
             add("coords.%s.%s.cov%d" % ("+".join(seq), ids, b), n)
+
+    # ---- <obs> cluster with a covariance matrix: every order of angular / linear observations (2 and 3 observations),
+    # band 0 .. dim-1, values and matrix given in gon/cc or degrees/arc seconds, output in gon or degrees:
+    # obsc.<kinds>.cov<band>.<input unit>-<output unit>
+    for seq in obsc_sequences():
+        for b in range(len(seq)):
+            for uin in OBSC_UNITS:
+                for uout in OBSC_UNITS:
+                    n = base3dr()
+                    c = obsc_cluster(seq); c.cov = cov_family(len(seq), b, 90.0 if uin == "gon" else 30.0)
+                    if uin == "deg":
+                        for o in c.obs:
+                            if o.kind in ANGULAR: o.deg = True
+                    if uout == "deg": n.params["angles"] = "360"
+                    n.clusters.append(c)
+                    add("obsc.%s.cov%d.%s-%s" % ("+".join(k[0] for k in seq), b, uin, uout), n)
     return F
 
 
